@@ -1,7 +1,8 @@
 """C15 -- unit_tangent, normal, curvature."""
+import math
 import z3
 
-from ..symx import (SR, SC, SB, explore, symc, symr, ceq, req, mval, mcval, Ctx, lift, zabs, Abort, sq)
+from ..symx import (SR, SC, SB, explore, symc, symr, ceq, req, mval, mcval, Ctx, lift, zabs, Abort, sq, tosc)
 from ..stubs import NPProxy, patched
 from .c03 import deriv_oracle, bern, REPLAY_ORACLE
 
@@ -202,6 +203,91 @@ def fam_line(R):
         R.sample({'line': 'symbolic end points'})
 
 
+REPLAY_ARC_CURV = """
+import math
+arcs = [Arc(0j, %r, %r, 0, 1, 1.5+1j), Arc(0j, %r, %r, 1, 0, 1.5+1j), Arc(1+1j, 3+1j, 30.0, 1, 1, 2+2j), Arc(1+1j, 1+2j, -70.0, 0, 1, 2+2j)]
+for arc in arcs:
+    for t in (%r, 0.0, 0.3, 0.5, 1.0):
+        if not 0 <= t <= 1: continue
+        d1, d2 = arc.derivative(t, 1), arc.derivative(t, 2)
+        want = abs(d1.real * d2.imag - d1.imag * d2.real) / abs(d1) ** 3
+        got = arc.curvature(t)
+        ut = arc.unit_tangent(t)
+        if abs(got - want) > 1e-7 * (1 + want):
+            REPRODUCED('%%r.curvature(%%r) = %%r but the cross-product formula on derivative(t,1), derivative(t,2) gives %%r' %% (arc, t, got, want))
+        if abs(ut - d1 / abs(d1)) > 1e-9 or abs(arc.normal(t) - (-1j) * d1 / abs(d1)) > 1e-9:
+            REPRODUCED('%%r: unit_tangent(%%r) = %%r, normal = %%r, derivative direction %%r' %% (arc, t, ut, arc.normal(t), d1 / abs(d1)))
+"""
+
+
+def fam_arc_curvature(R, rot, radii):
+    """Arc.unit_tangent / normal / curvature on an arc given by free theta, delta (unit pairs), centre; concrete radii and a
+    rotation with rational cos/sin.  Oracle: the ellipse's closed forms in the eccentric angle a = theta + t delta:
+    z' = k e^{i phi}(-rx sin a + i ry cos a),  kappa = rx ry / (rx^2 sin^2 a + ry^2 cos^2 a)^{3/2}."""
+    import svgpathtools.path as P
+    from . import c04
+    from ..ang import Ang
+    c04.install(P)
+    deg, c, s = c04.ROTATIONS[rot]
+    rx, ry = radii
+    R.bound(rotation=rot, radii=radii, theta_delta='free (unit pairs)', t='symbolic')
+    R.stub('Arc._parameterize -> free theta/delta/centre (as in C04)', 'np.seterr -> no-op')
+    orig = P.Arc._parameterize
+
+    def fake(self):
+        cx = Ctx.cur
+        th, dl = symr('theta'), symr('delta')
+        c1, s1, c2, s2 = cx.fresh('ct'), cx.fresh('st'), cx.fresh('cd'), cx.fresh('sd')
+        cx.assume(c1 * c1 + s1 * s1 == 1, c2 * c2 + s2 * s2 == 1, dl.e != 0)
+        self.theta = Ang(th.e, c1, s1, 'deg')
+        self.delta = Ang(dl.e, c2, s2, 'deg')
+        self.center = symc('ctr')
+
+    def run():
+        P.Arc._parameterize = fake
+        try:
+            arc = P.Arc(SC(0, 0), complex(rx, ry), c04.RotDeg(deg, c, s), True, True, SC(1, 1))
+            t = symr('t')
+            ut = arc.unit_tangent(t)
+            nr = arc.normal(t)
+            ku = arc.curvature(t)
+            return arc, t, ut, nr, ku
+        finally:
+            P.Arc._parameterize = orig
+
+    for ctx, (kind, val) in explore(run, maxpaths=60):
+        R.path(ctx, nontrivial=True)
+        if kind != 'ok':
+            R.unexpected(ctx, 'unexpected %s %r' % (kind, val))
+            continue
+        arc, t, ut, nr, ku = val
+        Ctx.cur = ctx
+        a_ = arc.theta + t * arc.delta
+        ca, sa = SR(a_.c), SR(a_.s)
+        k = SR(arc.delta.d * z3.RealVal(repr(math.pi)) / 180)
+        cc, ss = SR(z3.RealVal(str(c))), SR(z3.RealVal(str(s)))
+        ex, ey = -rx * sa, ry * ca                      # derivative in the ellipse frame, divided by k
+        dx, dy = k * (cc * ex - ss * ey), k * (ss * ex + cc * ey)
+        D = rx * rx * sa * sa + ry * ry * ca * ca         # |z'|^2 / k^2
+        n = symr('speed')                                  # |z'| = |k| sqrt(D)
+        hyp = [n.e > 0, (n * n).e == (k * k * D).e]
+
+        def cex(m):
+            return {'cls': 'Arc tangent/normal/curvature', 'inputs': {'rotation': deg, 'radii': radii, 't': mval(m, t)},
+                    'script': REPLAY_ARC_CURV % (complex(rx, ry), deg, complex(ry, rx), deg, mval(m, t))}
+        ut, nr = tosc(ut), tosc(nr)
+        # ut * |z'| = z' with |z'| = n: as  (ut.re)^2 * k^2 D = dx^2, same sign (no new sqrt atom needed)
+        R.ob_eq('unit_tangent.re^2', ctx, (ut.real * ut.real * k * k * D).e, (dx * dx).e, cex=cex, timeout_ms=60000)
+        R.ob_eq('unit_tangent.im^2', ctx, (ut.imag * ut.imag * k * k * D).e, (dy * dy).e, cex=cex, timeout_ms=60000)
+        R.ob_eq('unit_tangent.direction', ctx, (ut.real * dy).e, (ut.imag * dx).e, cex=cex, timeout_ms=60000)
+        R.ob('unit_tangent.sense', ctx, (ut.real * dx + ut.imag * dy).e >= 0, cex=cex, timeout_ms=60000)
+        R.ob('normal=-i*unit_tangent', ctx, z3.And(nr.real.e == ut.imag.e, nr.imag.e == (-ut.real).e), cex=cex)
+        ku = lift(ku)
+        R.ob('curvature>=0', ctx, ku.e >= 0, cex=cex, timeout_ms=60000)
+        R.ob_eq('curvature=rx*ry/D^(3/2)', ctx, (ku * ku * D * D * D).e, z3.RealVal(str(rx * rx * ry * ry)), cex=cex, timeout_ms=90000)
+        R.sample({'rotation': rot, 'radii': radii})
+
+
 def families(tier):
     M = 'vf.props.c15'
     fams = [('regular-deg%d' % d, M, 'fam_regular', {'deg': d}) for d in (2, 3)]
@@ -209,6 +295,11 @@ def families(tier):
     # Arc: unit_tangent = derivative/|derivative| and curvature use derivative(t,1), derivative(t,2): the derivative identities
     for rot in ('0', 'p37', '90'):
         fams.append(('arc-derivative-%s' % rot, 'vf.props.c04', 'fam_derivative', {'rot': rot}))
+    combos = [('0', (2.0, 1.0)), ('p37', (2.0, 1.0)), ('90', (1.0, 3.0)), ('m67', (2.5, 2.5))]
+    if tier == 'thorough':
+        combos += [('p127', (1.0, 3.0)), ('180', (2.0, 1.0)), ('p37', (1.0, 3.0)), ('-90', (2.0, 1.0))]
+    for rot, rad in combos:
+        fams.append(('arc-curvature-%s-%gx%g' % (rot, rad[0], rad[1]), M, 'fam_arc_curvature', {'rot': rot, 'radii': rad}))
     for case in SINGULAR:
         heavy = case in ('cubic.t0.P0=P1', 'cubic.t1.P2=P3')
         if heavy:
